@@ -38,6 +38,8 @@ pub struct InfoRec {
     pub nodes: u64,
     pub hashfull: usize,
     pub tbhits: u64,
+    /// number of stop-flag polls seen on this thread when the line was reported (hook H1)
+    pub polls: u64,
 }
 
 impl InfoRec {
@@ -80,6 +82,7 @@ impl Reporter for RecReporter {
             nodes: p.stats.nodes,
             hashfull: p.hashfull,
             tbhits: p.stats.tbhits,
+            polls: verif_hooks::polls(),
         });
     }
     fn best_move(&self, _: &Game, _: Move) {}
@@ -137,6 +140,26 @@ pub fn run_search(game: &Game, state: &mut PersistentState, limit: &Limit, stop_
     let r = catch(|| search::search(game, state, &mut ts, &restrictions, &options, &mut reporter));
     let polls = verif_hooks::polls();
     verif_hooks::arm(0);
+    r.map(|best| Outcome { best, infos: reporter.infos, polls, control })
+}
+
+/// Like `run_search`, but another thread calls the real `Control::stop()` after `delay_us` microseconds.
+pub fn run_search_with_stopper(game: &Game, state: &mut PersistentState, limit: &Limit, delay_us: u64) -> Result<Outcome, String> {
+    let options = EngineOptions::default();
+    let (tc, depth) = time_control(limit);
+    let restrictions = SearchRestrictions { depth };
+    let mut reporter = RecReporter::default();
+    let (mut ts, control) = TimeStrategy::new(game, &tc, &options);
+    verif_hooks::arm(0);
+    let r = std::thread::scope(|scope| {
+        let c = &control;
+        scope.spawn(move || {
+            std::thread::sleep(Duration::from_micros(delay_us));
+            c.stop();
+        });
+        catch(|| search::search(game, state, &mut ts, &restrictions, &options, &mut reporter))
+    });
+    let polls = verif_hooks::polls();
     r.map(|best| Outcome { best, infos: reporter.infos, polls, control })
 }
 
